@@ -329,7 +329,7 @@ impl Prop for C05 {
         "C05"
     }
     fn rule(&self) -> &'static str {
-        "cases = in-scope scenario x one of: ARP message with well-formed Ethernet/IPv4 header, operation over all u16 (dense at 0..4, 8..10), target handled / not handled / no self-IP list, 0..18 padding bytes; ARP with arbitrary htype/ptype/hlen/plen (only: no crash, operations != 1 get nothing); ICMPv4 / ICMPv6 with arbitrary type, code, identifier, sequence, data 0..1472 and Ethernet padding; neighbour solicitation with code 0 / non-zero, target handled / not handled, 0..2 well-formed NDP options, unicast / solicited-node destination. Plus the type x code grid (quick: 256 types x codes {0,1,2,127,255} per IP version; thorough: all 65536 pairs per IP version, exhaustive). Oracle: reference answer rule of the statement with field-by-field comparison by an independent decoder. Non-trivial = a reply is demanded, or the message is a near miss (operation/type/code one step from an answered one); distinct by frame hash."
+        "cases = in-scope scenario x one of: ARP message with well-formed Ethernet/IPv4 header, operation over all u16 (dense at 0..4, 8..10), target handled / not handled / no self-IP list, 0..18 padding bytes; ARP with arbitrary htype/ptype/hlen/plen (only: no crash, operations != 1 get nothing); ICMPv4 / ICMPv6 with arbitrary type, code, identifier, sequence, data 0..1472 and Ethernet padding; neighbour solicitation with code 0 / non-zero, target handled / not handled, 0..2 well-formed NDP options, unicast / solicited-node destination. Plus the type x code grid (quick: 256 types x codes {0,1,2,127,255} per IP version; thorough: all 65536 pairs per IP version, exhaustive). Oracle: reference answer rule of the statement with field-by-field comparison by an independent decoder. Non-trivial = a reply is demanded, or the message is a near miss (operation/type/code one step from an answered one); distinct by frame hash. Shadow traffic (vf/shadow.rs): three cases in ten process, before every frame of the case, a sibling of that frame whose result is discarded — the same frame again, or one tuple element (source / destination port, source / destination address, source MAC), one payload bit or the payload length changed; TCP conversations are shadowed whole on a sibling flow validated with its own cookie; sound by the statement of C08, cases whose own flows meet a shadow tuple are excluded and counted."
     }
     fn run(&self, ctx: &mut RunCtx) {
         let n = ctx.share(ctx.tier.n(6_000_000, 60_000_000));
